@@ -8,7 +8,7 @@
    permutation; everything else: the list function spec_step);
    refines ... s ops = along the history ops, as long as every operation is in range, each step
    keeps the invariant and satisfies spec_ok. *)
-From CelloV Require Import Generated SeqModels SeqProofs SortProofs SeqTupleProofs SeqErrorProofs SeqAccessProofs SeqTheorems.
+From CelloV Require Import Generated SeqModels SeqCmps SeqProofs SortProofs SeqTupleProofs SeqErrorProofs SeqAccessProofs SeqTheorems.
 From Coq Require Import List ZArith Bool Permutation Sorted.
 Import ListNotations.
 
@@ -116,6 +116,30 @@ Theorem sort_perm_sorted :
              Sorted (fun x y => leq x y = true) ys.
 Proof. exact SeqTheorems.sort_perm_sorted. Qed.
 Print Assumptions sort_perm_sorted.
+
+(* sort_by(t, f): the result is ordered by the GIVEN function f — whatever asymmetric, transitive f the
+   caller hands over (lt, gt, a custom order, a key with ties), not by the built-in order: a permutation
+   in which no element is f-before an element that precedes it.  (In array_refines_list and
+   tuple_refines_list the parameter ltb IS that function: the sort step of a history is specified by
+   spec_ok's SSort clause with the same ltb.) *)
+Theorem sort_by_ordered_by_given_function :
+  forall (E : Type) (f : E -> E -> bool),
+  (forall x y, f x y = true -> f y x = false) ->
+  (forall x y z, f x y = true -> f y z = true -> f x z = true) ->
+  forall xs : list E,
+  exists ys, qsort f xs = Ok ys /\ Permutation xs ys /\
+             StronglySorted (fun x y => f y x = false) ys.
+Proof. exact SortProofs.qsort_correct. Qed.
+Print Assumptions sort_by_ordered_by_given_function.
+
+(* the comparisons the harness hands to sort_by and lets the specification judge (lt, gt, |a|<|b|,
+   |a|/4<|b|/4, never) meet these hypotheses; le, ge and always do not and are compared with the model only *)
+Theorem driver_comparisons_in_contract :
+  forall k : nat, cmp_in_contract k = true ->
+  (forall a b, e_cmp k a b = true -> e_cmp k b a = false) /\
+  (forall a b c, e_cmp k a b = true -> e_cmp k b c = true -> e_cmp k a c = true).
+Proof. exact SeqTheorems.driver_comparisons_in_contract. Qed.
+Print Assumptions driver_comparisons_in_contract.
 
 (* what the specification says about negative indices and rem *)
 Theorem get_negative_counts_from_end :
@@ -303,3 +327,11 @@ Proof.
   split; [intros x y z H1 H2; apply Z.leb_le in H1, H2; apply Z.leb_le; eapply Z.le_trans; eauto|].
   vm_compute. reflexivity.
 Qed.
+
+(* sort_by with gt on ascending input, and with a key that creates ties, through the Tuple model *)
+Example sort_by_given_function_runs :
+  t_abs elt (fst (t_step elt e_eqb (e_cmp 1) e_same (t_new elt [(1,1);(2,2);(3,3);(4,4)]%Z true) (SSort elt)))
+    = [(4,4);(3,3);(2,2);(1,1)]%Z /\
+  map snd (t_abs elt (fst (t_step elt e_eqb (e_cmp 5) e_same (t_new elt [(1,9);(2,1);(3,5);(4,2);(5,8)]%Z true) (SSort elt))))
+    = [1;2;5;9;8]%Z.
+Proof. vm_compute. split; reflexivity. Qed.
